@@ -20,6 +20,7 @@ TInit == /\ tid \in 1..Len(Traces)
 
 CheckOf(e) ==
   CASE e.e = "Req"   -> ReqCheck(e)
+    [] e.e = "ReqR"  -> ReqRCheck(e)
     [] e.e = "Hdr"   -> HdrCheck(e)
     [] e.e = "PResp" -> PRespCheck(e)
     [] e.e = "MResp" -> MRespCheck(e)
